@@ -1,10 +1,84 @@
-/- Props/C20.lean — placeholder until Proofs/Toml.lean lands -/
-import FerretVerif.Model.Toml
+/-
+  Props/C20.lean — C20: TOML configuration survives a write/parse round trip.
+
+  About Model/Toml.lean (text-level transcription of toml/writer.go and toml/parser.go after the fix of F11),
+  tied to the Go package on every run by checks/c20.py.  The two facts assumed about strconv are explicit:
+  `floatRaw raw` (shape of FormatFloat(v,'f',-1,64): -?d+(.d+)?) in `writable`, and
+  `hpf : ∀ t, floatRaw t → pf t` (ParseFloat accepts every text of that shape); that ParseFloat returns the
+  float FormatFloat printed is strconv's round-trip guarantee and lies outside the model (floats stay text).
+-/
+import FerretVerif.Proofs.Toml
+
 namespace FerretVerif.C20
 open FerretVerif.Toml
-/-- the unfixed writer rendered the float 3.0 as `3`, which the parser reads as the INT 3 (finding F11);
-    with the fix the rendering keeps a fractional part -/
+
+/-- every writable value — strings without `"`, `\`, CR/LF not spelled like a boolean (leading/trailing blanks,
+    `#`, `=`, `[` all allowed), booleans, 64-bit integers, finite floats — is read back as written -/
+theorem roundtrip_value (pf : List Char → Bool) (hpf : ∀ t, floatRaw t = true → pf t = true)
+    (v : WVal) (hv : writable v = true) : parseValue pf (formatValue v) = expectRead v :=
+  parseValue_formatValue pf hpf v hv
+
+/-- a written `key = value` line is parsed back to that key and value -/
+theorem roundtrip_line (pf : List Char → Bool) (hpf : ∀ t, floatRaw t = true → pf t = true)
+    {k : List Char} {v : WVal} (hk : bareKey k = true) (hv : writable v = true) :
+    parseLine pf (trimSpace (k ++ " = ".toList ++ formatValue v)) = .kv k (expectRead v) :=
+  parseLine_formatLine pf hpf hk hv
+
+/-- surrounding blanks never change the parsed value -/
+theorem blanks_inert (pf : List Char → Bool) (hpf : ∀ t, floatRaw t = true → pf t = true)
+    {ws1 k ws2 ws3 ws4 : List Char} {v : WVal} (hk : bareKey k = true) (hv : writable v = true)
+    (h1 : blanks ws1 = true) (h2 : blanks ws2 = true) (h3 : blanks ws3 = true) (h4 : blanks ws4 = true) :
+    parseLine pf (trimSpace (ws1 ++ k ++ ws2 ++ ['='] ++ ws3 ++ formatValue v ++ ws4)) = .kv k (expectRead v) :=
+  parseLine_blanks_inert pf hpf hk hv h1 h2 h3 h4
+
+/-- a trailing comment — ANY text after `#` — never changes the parsed value -/
+theorem comments_inert (pf : List Char → Bool) (hpf : ∀ t, floatRaw t = true → pf t = true)
+    {ws1 k ws2 ws3 ws4 : List Char} {v : WVal} (c : List Char) (hk : bareKey k = true) (hv : writable v = true)
+    (h1 : blanks ws1 = true) (h2 : blanks ws2 = true) (h3 : blanks ws3 = true) (h4 : blanks ws4 = true) :
+    parseLine pf (trimSpace (ws1 ++ k ++ ws2 ++ ['='] ++ ws3 ++ formatValue v ++ (ws4 ++ ['#'] ++ c)))
+      = .kv k (expectRead v) := parseLine_comment_inert pf hpf c hk hv h1 h2 h3 h4
+
+/-- blank lines and comment lines are skipped -/
+theorem blank_line_skipped (pf : List Char → Bool) {l : List Char} (h : allSp l) : parseLine pf (trimSpace l) = .skip :=
+  parseLine_skip_blank pf h
+theorem comment_line_skipped (pf : List Char → Bool) {ws : List Char} (c : List Char) (h : allSp ws) :
+    parseLine pf (trimSpace (ws ++ '#' :: c)) = .skip := parseLine_skip_comment pf c h
+
+/-- FILE-LEVEL ROUND TRIP: for any table over the writer's sections with bare keys and writable values (entries
+    in ANY order — Go iterates its maps arbitrarily), the written file parses, every written key is read back
+    in its section with its value … -/
+theorem roundtrip_file_parses (pf : List Char → Bool) (hpf : ∀ t, floatRaw t = true → pf t = true)
+    (data : List WSection) (hwf : wfData data = true) : parseFile pf (writeFile data) ≠ none :=
+  parseFile_writeFile_ne_none pf hpf data hwf
+
+theorem roundtrip_file_lookup (pf : List Char → Bool) (hpf : ∀ t, floatRaw t = true → pf t = true)
+    (data : List WSection) (hwf : wfData data = true) {n k : List Char} {es : List (List Char × WVal)} {v : WVal}
+    (hn : (n, es) ∈ data) (hk : (k, v) ∈ es) :
+    (parseFile pf (writeFile data)).bind (fun d => lookup d n k) = some (expectRead v) :=
+  parseFile_writeFile_lookup pf hpf data hwf hn hk
+
+/-- … and nothing else is read -/
+theorem roundtrip_file_nothing_else (pf : List Char → Bool) (hpf : ∀ t, floatRaw t = true → pf t = true)
+    (data : List WSection) (hwf : wfData data = true) {n k : List Char} {pv : PVal}
+    (h : (parseFile pf (writeFile data)).bind (fun d => lookup d n k) = some pv) :
+    ∃ es v, (n, es) ∈ data ∧ (k, v) ∈ es ∧ pv = expectRead v := parseFile_writeFile_only pf hpf data hwf h
+
+/-- integers survive Itoa/Atoi over the whole 64-bit range -/
+theorem roundtrip_int {i : Int} (h : inInt64 i = true) : atoi (itoa i) = some i := atoi_itoa h
+
+/-- the float rendering always keeps a fractional part (so it is never re-read as an integer) -/
+theorem float_keeps_fraction {raw : List Char} (h : floatRaw raw = true) :
+    floatRaw (formatFloat raw) = true ∧ '.' ∈ formatFloat raw := formatFloat_shape h
+
+/-- the unfixed writer rendered the float 3.0 as `3`, which the parser reads as the INT 3 (finding F11) -/
 theorem float_integral_witness :
     parseValue (fun _ => true) ['3'] = .int 3 ∧ formatValue (.float ['3']) = ['3', '.', '0']
       ∧ parseValue (fun _ => true) ['3', '.', '0'] = .float ['3', '.', '0'] := by decide
+
+/-- the parser is a total function of the file content (absence of crashes in the Go code is correspondence) -/
+theorem parse_total (pf : List Char → Bool) (s : List Char) : ∃ r, parseFile pf s = r := ⟨_, rfl⟩
+
+-- non-vacuity
+example : okStr " a # b = [c] ".toList = true ∧ floatRaw "-12.5".toList = true ∧ bareKey "max-depth_2".toList = true := by decide
+
 end FerretVerif.C20
